@@ -21,6 +21,7 @@ import (
 
 // FilesCfg configures the segment-file life-cycle scenario (C12).
 type FilesCfg struct {
+	SlowDst   int            `json:"slow_dst,omitempty"` // steps per file of a copy's destination directory
 	Index     model.IndexCfg `json:"index"`
 	Sched     sched.Config   `json:"sched"`
 	NDocs     int            `json:"ndocs"`
@@ -42,6 +43,7 @@ func genFiles(c *core.Ctx) (FilesCfg, FilesWL) {
 	cfg.Index.Unsafe = g.Intn(2) == 0
 	cfg.Index.SamplingMS = []int{0, 0, 10, 1000}[g.Intn(4)]
 	cfg.Sched = genSchedCfg(g, true)
+	cfg.SlowDst = []int{0, 5, 40, 150}[g.Intn(4)]
 	wl := FilesWL{}
 	nw := 1 + g.Intn(3)
 	for w := 0; w < nw; w++ {
@@ -54,8 +56,16 @@ func genFiles(c *core.Ctx) (FilesCfg, FilesWL) {
 	for h := 0; h < g.Intn(4); h++ {
 		wl.Held = append(wl.Held, HeldOp{Wait: g.Intn(120), Queries: 2 + g.Intn(3), Gap: 20 + g.Intn(150)})
 	}
-	for i := 0; i < g.Intn(3); i++ {
-		wl.Copies = append(wl.Copies, g.Intn(200))
+	firstCopy := g.Intn(200)
+	for i := 0; i < g.Intn(4); i++ {
+		if g.Intn(2) == 0 {
+			wl.Copies = append(wl.Copies, firstCopy+g.Intn(10)) // overlapping copies
+		} else {
+			wl.Copies = append(wl.Copies, g.Intn(200))
+		}
+	}
+	if len(wl.Copies) > 0 && g.Intn(3) == 0 {
+		cfg.Sched = sched.Config{Policy: sched.PolStarve, StarveRole: "backup"} // a slow copier
 	}
 	if g.Intn(3) != 0 {
 		wl.ForceMerges = 1 + g.Intn(3)
@@ -234,7 +244,7 @@ func filesScenario(c *core.Ctx) {
 				s.Yield("backup-wait")
 			}
 			dst := filepath.Join(c.Dir, name)
-			if err := idx.(bleve.IndexCopyable).CopyTo(bleve.FileSystemDirectory(dst)); err != nil {
+			if err := idx.(bleve.IndexCopyable).CopyTo(&slowDirectory{Directory: bleve.FileSystemDirectory(dst), s: s, steps: cfg.SlowDst}); err != nil {
 				c.Violate("needed-file-missing", map[string]string{"holder": "copy-in-progress"}, s.Steps, "%s: CopyTo failed: %v", name, err)
 			}
 			c.Probe("copy_done")
@@ -302,9 +312,6 @@ func filesScenario(c *core.Ctx) {
 		}
 	}
 	sig := map[string]string{}
-	if len(orphans) > 0 {
-		c.Violate("unneeded-files-remain", sig, s.Steps, "at quiescence the directory holds %v, which no retained snapshot names (snapshots: %+v)", orphans, snaps)
-	}
 	if len(snaps) > keep {
 		// snapshots already queued for the purger's next pass are removed at the next persister wake-up; one that
 		// is neither retained nor queued stays for ever
@@ -327,6 +334,40 @@ func filesScenario(c *core.Ctx) {
 			sig["extras"] = "not-queued"
 		}
 		c.Violate("too-many-snapshots-retained", sig, s.Steps, "at quiescence root.bolt holds %d snapshots %v but numSnapshotsToKeep is %d (queued for the purger's next pass: %v)", len(snaps), epochs(snaps), keep, pending)
+	}
+	if len(orphans) > 0 {
+		// Files that became removable after the purger's last pass (a reader or a copy released them late) wait for
+		// the next persister round: that is the known lingering (section 10.8). A file that is still there after
+		// one more round is leaked for good. One more batch wakes the persister; then settle again and look.
+		s.Spawn("nudge", func() {
+			b := idx.NewBatch()
+			b.SetInternal([]byte("nudge"), []byte("1"))
+			_ = idx.Batch(b)
+		})
+		if !env.RunClients("nudge") {
+			return
+		}
+		for round := 0; round < 4; round++ {
+			_ = s.Quiesce(30 * time.Second)
+		}
+		snaps2, _ := ReadRootBolt(store)
+		named2 := map[string]bool{}
+		for _, sn := range snaps2 {
+			for _, f := range sn.Files {
+				named2[f] = true
+			}
+		}
+		var still []string
+		for _, f := range ListZap(store) {
+			if !named2[f] {
+				still = append(still, f)
+			}
+		}
+		if len(still) > 0 {
+			c.Violate("unneeded-files-remain", map[string]string{"after": "one-more-persister-round"}, s.Steps, "at quiescence the directory held %v, which no retained snapshot names; after one more batch and settling again %v are still there (snapshots now: %v)", orphans, still, epochs(snaps2))
+		} else {
+			c.Violate("unneeded-files-linger", map[string]string{"until": "next-persister-round"}, s.Steps, "at quiescence the directory holds %v, which no retained snapshot names; they disappear only after the next batch wakes the persister (snapshots: %v)", orphans, epochs(snaps))
+		}
 	}
 	ents, _ := os.ReadDir(store)
 	for _, e := range ents {
